@@ -29,7 +29,10 @@ pub fn load_known() -> Vec<Known> {
             a.iter()
                 .map(|f| Known {
                     id: f["id"].as_str().unwrap_or("").to_string(),
-                    property: f["property"].as_str().unwrap_or("").to_string(),
+                    property: match &f["property"] {
+                        Value::Array(a) => a.iter().filter_map(|x| x.as_str()).collect::<Vec<_>>().join(","),
+                        x => x.as_str().unwrap_or("").to_string(),
+                    },
                     scenario: f["scenario"].as_str().unwrap_or("*").to_string(),
                     clauses: strs(&f["clause"]),
                     witness: strs(&f["witness"]),
@@ -85,31 +88,47 @@ fn labels_of(msg: &str) -> Vec<(String, String)> {
     vec![]
 }
 
-/// `witness` is an ordered list of label names; names ending in '#' must all carry the same argument
+/// `witness` is an ordered list of label names; names ending in '#' must all carry the same argument;
+/// a name starting with '!' must NOT occur between its positive neighbours
 fn witness_matches(witness: &[String], labels: &[(String, String)]) -> bool {
-    fn rec(w: &[String], labels: &[(String, String)], from: usize, arg: Option<&str>) -> bool {
-        if w.is_empty() {
-            return true;
-        }
-        let (name, same) = match w[0].strip_suffix('#') {
-            Some(n) => (n, true),
-            None => (w[0].as_str(), false),
+    fn parse(w: &str) -> (bool, &str, bool) {
+        let (neg, w) = match w.strip_prefix('!') {
+            Some(r) => (true, r),
+            None => (false, w),
         };
-        for i in from..labels.len() {
-            if labels[i].0 != name {
-                continue;
+        match w.strip_suffix('#') {
+            Some(n) => (neg, n, true),
+            None => (neg, w, false),
+        }
+    }
+    fn rec(w: &[String], labels: &[(String, String)], from: usize, arg: Option<&str>) -> bool {
+        // collect the negative names in front of the next positive one
+        let mut negs: Vec<(&str, bool)> = vec![];
+        let mut k = 0;
+        while k < w.len() {
+            let (neg, name, same) = parse(&w[k]);
+            if !neg {
+                break;
             }
-            if same {
-                if let Some(a) = arg {
-                    if labels[i].1 != a {
-                        continue;
-                    }
-                }
-                if rec(&w[1..], labels, i + 1, Some(labels[i].1.as_str())) {
+            negs.push((name, same));
+            k += 1;
+        }
+        if k == w.len() {
+            // only negatives left: they must not occur up to the end
+            return !labels[from..].iter().any(|l| negs.iter().any(|(n, same)| l.0 == *n && (!same || arg.map(|a| a == l.1).unwrap_or(true))));
+        }
+        let (_, name, same) = parse(&w[k]);
+        for i in from..labels.len() {
+            let l = &labels[i];
+            let is_neg = negs.iter().any(|(n, s)| l.0 == *n && (!s || arg.map(|a| a == l.1).unwrap_or(true)));
+            if l.0 == name && (!same || arg.map(|a| a == l.1).unwrap_or(true)) {
+                let a2 = if same { Some(l.1.as_str()) } else { arg };
+                if rec(&w[k + 1..], labels, i + 1, a2) {
                     return true;
                 }
-            } else if rec(&w[1..], labels, i + 1, arg) {
-                return true;
+            }
+            if is_neg {
+                return false;
             }
         }
         false
@@ -118,7 +137,7 @@ fn witness_matches(witness: &[String], labels: &[(String, String)]) -> bool {
 }
 
 pub fn matches_known(k: &Known, prop: &str, v: &Violation) -> bool {
-    if k.property != prop || !glob(&k.scenario, &v.scenario) {
+    if !k.property.split(',').any(|p| p == prop) || !glob(&k.scenario, &v.scenario) {
         return false;
     }
     if !k.clauses.is_empty() && !k.clauses.iter().any(|c| glob(c, &v.clause)) {
